@@ -147,6 +147,8 @@ static void dg_as_input(char *buf, size_t n, const uint8_t *d, size_t len, int o
 /* ------------------------------------------------------------------ client side */
 static coap_context_t *cli = NULL, *srv = NULL;
 static coap_session_t *cs = NULL;
+static coap_session_t *sb = NULL;      /* exc: shadow session of the same context, see do_exc */
+static int sb_nacks = 0;
 static coap_endpoint_t *ep = NULL;
 static int cur_ok = 1;                 /* verdict of the next handler call (exc) */
 #define MAXREQ 64
@@ -168,7 +170,7 @@ static int verdict_for(unsigned long long tok) {
 
 static coap_response_t on_resp(coap_session_t *s, const coap_pdu_t *sent, const coap_pdu_t *rcv,
                                const coap_mid_t mid) {
-  (void)s;
+  if (sb && s == sb) { out_add("!shadow-session-got-a-response"); return COAP_RESPONSE_OK; }
   coap_bin_const_t t = coap_pdu_get_token(rcv);
   unsigned long long tok = tokval(t.s, t.length);
   long long st = -1;
@@ -187,7 +189,7 @@ static coap_response_t on_resp(coap_session_t *s, const coap_pdu_t *sent, const 
 
 static void on_nack(coap_session_t *s, const coap_pdu_t *sent, const coap_nack_reason_t reason,
                     const coap_mid_t mid) {
-  (void)s;
+  if (sb && s == sb) { sb_nacks++; return; }
   if (sent) {
     coap_bin_const_t t = coap_pdu_get_token(sent);
     unsigned long long tok = tokval(t.s, t.length);
@@ -210,7 +212,7 @@ static void hook_send(size_t idx) {
     fputs("runaway: more than 200000 datagrams in one case\n", stderr);
     _exit(3);
   }
-  if (vn_out[idx].ctx == cli && cli) {
+  if (vn_out[idx].ctx == cli && cli && vn_out[idx].session == cs) {
     char b[160];
     dg_describe(b, sizeof(b), vn_out[idx].data, vn_out[idx].len);
     out_add("tx:%s", b);
@@ -218,9 +220,19 @@ static void hook_send(size_t idx) {
 }
 
 /* the application sends a CON GET /<style>; returns 0 when skipped */
+/* the node of a session in the context's send queue, and when it is due */
+static coap_queue_t *queue_node(coap_session_t *s, coap_tick_t *due) {
+  coap_tick_t t = cli->sendqueue_basetime;
+  for (coap_queue_t *q = cli->sendqueue; q; q = q->next) {
+    t += q->t;
+    if (q->session == s) { if (due) *due = t; return q; }
+  }
+  return NULL;
+}
+
 static int app_method = COAP_REQUEST_CODE_GET;   /* H<n> in exc, H <n> in exe */
 static int app_send(int sty, int ok) {
-  if (cli->sendqueue != NULL || cs->delayqueue != NULL) {
+  if (queue_node(cs, NULL) != NULL || cs->delayqueue != NULL) {
     out_add("skip");
     return 0;
   }
@@ -243,8 +255,10 @@ static int app_send(int sty, int ok) {
   return 1;
 }
 
+static int block_mode_on = 0;   /* env C07_BLOCK_MODE=1: contexts run with COAP_BLOCK_USE_LIBCOAP */
 static void client_setup(const coap_address_t *server, int maxr, int mid0, long long tok0) {
   cli = coap_new_context(NULL);
+  if (block_mode_on) coap_context_set_block_mode(cli, COAP_BLOCK_USE_LIBCOAP);
   coap_register_response_handler(cli, on_resp);
   coap_register_nack_handler(cli, on_nack);
   cs = vn_new_client(cli, server);
@@ -260,6 +274,7 @@ static void client_setup(const coap_address_t *server, int maxr, int mid0, long 
 static void all_teardown(void) {
   recording = 0;
   vn_on_send = NULL;
+  if (sb) { coap_session_release(sb); sb = NULL; }
   if (cs) { vn_unregister_client(cs); coap_session_release(cs); cs = NULL; }
   if (cli) { coap_free_context(cli); cli = NULL; }
   if (srv) { coap_free_context(srv); srv = NULL; ep = NULL; }
@@ -308,6 +323,17 @@ static void do_exc(void) {
   vn_now = 1000;
   vn_prng_seed(11);
   client_setup(&peer, maxr, mid0, tok0);
+  /* a second session of the same context towards another peer.  Whenever the session under
+     test sends a request, the shadow session sends one with the same message id and the same
+     token; nothing ever answers it.  Datagrams delivered to the session under test must leave the
+     shadow's request alone (the send queue is shared by the sessions of a context). */
+  {
+    coap_address_t peer2;
+    vn_addr4(&peer2, VN_LOOPBACK, 5684);
+    sb = coap_new_client_session(cli, NULL, &peer2, COAP_PROTO_UDP);
+    if (sb && maxr >= 0) coap_session_set_max_retransmit(sb, (uint16_t)maxr);
+    sb_nacks = 0;
+  }
   use_tok_verdict = 0;
   app_method = COAP_REQUEST_CODE_GET;
   sb_reset(&steps); sb_reset(&times); nsteps = 0;
@@ -316,19 +342,39 @@ static void do_exc(void) {
     char in[128];
     if (a[0] == 'H') { app_method = atoi(a + 1); continue; }   /* method of the following sends */
     step_begin();
+    int sb_before = sb && queue_node(sb, NULL) != NULL, sb_nacks_before = sb_nacks;
     if (a[0] == 'S') {
       int sty = atoi(a + 1);
       cur_ok = 1;
-      app_send(sty, 1);
+      if (app_send(sty, 1) && sb && !sb_before && sb->delayqueue == NULL && nreqs > 0) {
+        sb->tx_mid = (uint16_t)(reqs[nreqs - 1].mid - 1);
+        sb->tx_token = reqs[nreqs - 1].tok - 1;
+        coap_pdu_t *p = coap_new_pdu(COAP_MESSAGE_CON, (coap_pdu_code_t)app_method, sb);
+        uint8_t tk[8];
+        size_t tl;
+        coap_session_new_token(sb, &tl, tk);
+        coap_add_token(p, tl, tk);
+        coap_add_option(p, COAP_OPTION_URI_PATH, 1, (const uint8_t *)"p");
+        coap_send(sb, p);
+        sb_before = queue_node(sb, NULL) != NULL;
+      }
       snprintf(in, sizeof(in), "S%d", sty);
     } else if (a[0] == 'T') {
-      /* the retransmission timer of the queued request: advance to the due time of the head
-         of the send queue (other timers of the client - lg_crcv expiry - are not inputs of
-         the model); with nothing queued, let whatever timer there is pass */
-      if (cli->sendqueue) {
-        coap_tick_t due = cli->sendqueue_basetime + cli->sendqueue->t;
-        if (due > vn_now) vn_now = due;
-        vn_prepare(cli);
+      /* the retransmission timer of the queued request: advance to the due time of this
+         session's node in the send queue (other timers of the client - lg_crcv expiry, the
+         shadow session's retransmissions - are not inputs of the model); with nothing queued,
+         let whatever timer there is pass */
+      coap_queue_t *q0 = queue_node(cs, NULL);
+      if (q0) {
+        /* follow the waits the library reports until this session's node has fired (its
+           retransmit count changed or it left the queue); no arithmetic on queue times here */
+        unsigned cnt0 = q0->retransmit_cnt;
+        for (int g = 0; g < 64; g++) {
+          unsigned w = vn_prepare(cli);
+          coap_queue_t *q1 = queue_node(cs, NULL);
+          if (q1 != q0 || q1->retransmit_cnt != cnt0 || w == 0) break;
+          vn_advance(w);
+        }
       } else {
         unsigned w = vn_prepare(cli);
         if (w > 0) { vn_advance(w); vn_prepare(cli); }
@@ -356,6 +402,8 @@ static void do_exc(void) {
     } else {
       snprintf(in, sizeof(in), "?%s", a);
     }
+    if (sb_before && queue_node(sb, NULL) == NULL && sb_nacks == sb_nacks_before)
+      out_add("!shadow-session-request-removed");
     step_end(in);
   }
   printf("%s\n", steps.s ? steps.s : "");
@@ -677,6 +725,7 @@ static void do_exe(void) {
   coap_address_t server;
   if (kind_real) {
     srv = coap_new_context(NULL);
+    if (block_mode_on) coap_context_set_block_mode(srv, COAP_BLOCK_USE_LIBCOAP);
     ep = vn_new_server_ep(srv);
     if (!ep) { puts("ERROR no endpoint"); exit(2); }
     for (int k = 0; k < 5; k++) {
@@ -788,6 +837,7 @@ int main(void) {
   coap_startup();
   coap_set_log_level(COAP_LOG_EMERG);
   setvbuf(stdout, NULL, _IOLBF, 0);
+  block_mode_on = getenv("C07_BLOCK_MODE") && atoi(getenv("C07_BLOCK_MODE")) != 0;
   while (next_case(stdin)) {
     if (vntok == 0) { puts(""); continue; }
     alarm(40);                       /* wall-clock guard per case (SIGALRM ends the process) */
